@@ -13,6 +13,8 @@ pub mod locator;
 pub mod partitioner;
 mod sharding;
 
+#[cfg(feature = "scylla-verif")]
+pub(crate) use sharding::verif_hooks as verif_sharding;
 pub use sharding::{InvalidShardAwarePortRange, Shard, ShardAwarePortRange, ShardCount, Sharder};
 pub(crate) use sharding::{ShardInfo, ShardingError};
 
